@@ -5,6 +5,56 @@ Core Lean only.
 import MxlVerif.Model.C04
 namespace Mxl.C04
 
+/-! ### the facts read from the current source (Generated/C04Facts.lean) on which the proofs rest.
+Each is `rfl` against the generated definition: an edit of the corresponding comparison operator, flag,
+statement order or default in simulator.py / int_scipy.py makes the lemma — and every theorem of
+Props/C04.lean and Props/C14.lean behind it — fail to check. -/
+
+@[simp] theorem gen_simulateRefusal (a b : Rat) : Gen.simulateRefusal.eval a b = decide (a ≤ b) := rfl
+@[simp] theorem gen_timeCourseRefusal (a b : Rat) : Gen.timeCourseRefusal.eval a b = decide (a ≤ b) := rfl
+@[simp] theorem gen_timeCourseKeep (a b : Rat) : Gen.timeCourseKeep.eval a b = decide (b ≤ a) := rfl
+@[simp] theorem gen_prependCmp (a b : Rat) : Gen.prependCmp.eval a b = (a != b) := rfl
+@[simp] theorem gen_simulateSkipfirst : Gen.simulateSkipfirst = true := rfl
+@[simp] theorem gen_timeCourseSkipfirst : Gen.timeCourseSkipfirst = true := rfl
+@[simp] theorem gen_steadySkipfirst : Gen.steadySkipfirst = false := rfl
+@[simp] theorem gen_simulateChecksBeforeShift : Gen.simulateChecksBeforeShift = true := rfl
+@[simp] theorem gen_timeCourseChecksBeforeShift : Gen.timeCourseChecksBeforeShift = true := rfl
+@[simp] theorem gen_updVarsKeepsAtSameTime : Gen.updVarsKeepsAtSameTime = true := rfl
+@[simp] theorem gen_clearResetsShift : Gen.clearResetsShift = true := rfl
+@[simp] theorem gen_clearResetsErrors : Gen.clearResetsErrors = true := rfl
+@[simp] theorem gen_steadyResets : Gen.steadyResets = false := rfl
+@[simp] theorem gen_steadyStartsAtT0 : Gen.steadyStartsAtT0 = true := rfl
+@[simp] theorem gen_steadyAdvances : Gen.steadyAdvances = true := rfl
+theorem gen_stepsPlus : Gen.stepsPlus = 1 := rfl
+theorem gen_defaultPoints_ge : 2 ≤ Gen.defaultPoints := by decide
+theorem gen_stepSize_pos : 0 < Gen.stepSize := by decide
+
+theorem nPoints_some (k : Nat) : nPoints (some k) = k + 1 := rfl
+theorem nPoints_none_ge : 2 ≤ nPoints none := gen_defaultPoints_ge
+
+/-- the steady-state loop always advances the clock -/
+theorem steadyDur_pos (k : Nat) : 0 < steadyDur k := by
+  unfold steadyDur
+  have h1 : (0 : Rat) < (Gen.stepSize : Rat) := Rat.natCast_pos.mpr gen_stepSize_pos
+  have h2 : (0 : Rat) ≤ (k : Rat) := Rat.natCast_nonneg
+  exact Rat.mul_pos h1 (by grind)
+
+/-- `Scipy.integrate_to_steady_state` with the facts of the current source: continue from (`t0`, `y0`) for
+    `steadyDur k` and stay there -/
+theorem integrateToSteadyState_eq {σ} (S : Sys σ) (p : Pars) (ig : Integ σ) (res : Option Nat) :
+    integrateToSteadyState S p ig res =
+      match steadyIter res with
+      | none => (ig, none)
+      | some k => ({ ig with t0 := ig.t0 + steadyDur k, y0 := S.flow p (steadyDur k) ig.y0 },
+                   some (ig.t0 + steadyDur k, S.flow p (steadyDur k) ig.y0)) := by
+  unfold integrateToSteadyState
+  simp only [gen_steadyResets, gen_steadyStartsAtT0, gen_steadyAdvances, Bool.false_eq_true, if_false, if_true]
+  cases steadyIter res with
+  | none => rfl
+  | some k =>
+    have : ig.t0 + steadyDur k - ig.t0 = steadyDur k := by grind
+    simp only [this]
+
 /-! ### strictly increasing lists -/
 
 theorem strictInc_iff (l : List Rat) : strictInc l = true ↔ l.Pairwise (· < ·) := by
@@ -223,7 +273,7 @@ theorem itc_ok {σ} (S : Sys σ) (p : Pars) (ig : Integ σ) (sh : Option Rat) (g
          | some r => .ok ({ ig with t0 := r.1, y0 := r.2 }, rows)) := by
     rcases hpts with h | h
     · subst h
-      simp only [List.map_cons, e0, integrateTimeCourse, bne_self_eq_false, Bool.false_eq_true, if_false]
+      simp only [List.map_cons, e0, integrateTimeCourse, gen_prependCmp, bne_self_eq_false, Bool.false_eq_true, if_false]
       rfl
     · subst h
       cases g' with
@@ -231,7 +281,7 @@ theorem itc_ok {σ} (S : Sys σ) (p : Pars) (ig : Integ σ) (sh : Option Rat) (g
       | cons b r =>
         have hb : ig.t0 + d < b := (List.pairwise_cons.mp hp).1 b (by simp)
         have hbne : (b - d != ig.t0) = true := by simp; grind
-        simp only [List.map_cons, integrateTimeCourse, hbne, if_true]
+        simp only [List.map_cons, integrateTimeCourse, gen_prependCmp, hbne, if_true]
         rfl
   rw [hsolve] at hcall
   have hlastrow : (List.map (fun t => (t, S.flow p (t - ig.t0) ig.y0)) (ig.t0 :: g'.map (· - d))).getLast?
@@ -285,7 +335,7 @@ theorem itc_unsorted {σ} (S : Sys σ) (p : Pars) (ig : Integ σ) (sh : Option R
   have hsolve := solveIvp_unsorted S p ig.y0 ig.t0 (g'.map (· - d)) (by rw [hl]; grind) hrel
   rcases hpts with h | ⟨h, hh⟩
   · subst h
-    simp only [List.map_cons, e0, integrateTimeCourse, bne_self_eq_false, Bool.false_eq_true, if_false]
+    simp only [List.map_cons, e0, integrateTimeCourse, gen_prependCmp, bne_self_eq_false, Bool.false_eq_true, if_false]
     rw [hsolve]
   · subst h
     cases g' with
@@ -293,7 +343,7 @@ theorem itc_unsorted {σ} (S : Sys σ) (p : Pars) (ig : Integ σ) (sh : Option R
     | cons b r =>
       have hbne : (b - d != ig.t0) = true := by
         simp at hh ⊢; intro h; apply hh; grind
-      simp only [List.map_cons, integrateTimeCourse, hbne, if_true]
+      simp only [List.map_cons, integrateTimeCourse, gen_prependCmp, hbne, if_true]
       simp only [List.map_cons] at hsolve
       rw [hsolve]
 
